@@ -39,6 +39,7 @@ def oracle(ctx, s):
 def inputs(ctx, nj, ng):
     rng = ctx.rng
     ins = [gen.mixed(rng) for _ in range(nj)]
+    ins += [gen.gassign(rng) for _ in range(max(200, nj // 3))]
     g = grammar.Gen(rng)
     for _ in range(ng):
         stmts = [g.stmt() for _ in range(rng.randint(1, 3))] if rng.random() < 0.85 else [g.create_block()]
